@@ -1,5 +1,6 @@
 import Qryn.Tempo.SearchParse
 import Qryn.Tempo.Legacy
+import Qryn.Read.Tail
 import Qryn.Proofs.ConfineTempo
 import Qryn.Read.ConfineSearch
 import Qryn.Read.Tables
@@ -91,6 +92,10 @@ def handle : List String → Option String
     some s!"{hexOut (renderSel s)} {confined lokiCfg (winQuery q) s || q.startNs == 0 || q.endNs == 0} {lokiCfg.kind q.tracesTable == .data && lokiCfg.kind q.tracesDistTable == .data}"
   | ["c13ttagsreq", kv] => do some (hexOut (renderSel (tagsRequest (← Driver.C07.str? kv))))
   | ["c13tvaluesreq", kv, tag] => do some (hexOut (renderSel (valuesRequest (← Driver.C07.str? kv) (valuesTag (← ofHex tag)))))
+  -- the `From` of every tail tick: `c13tail <from0> <ts,ts;ts,…>` (`-` = a tick without entries)
+  | ["c13tail", from0, results] => do
+    let rs ← (results.splitOn ";").mapM (fun r => if r = "-" then some [] else (r.splitOn ",").mapM String.toInt?)
+    some (" ".intercalate ((Qryn.Tail.froms (← from0.toInt?) rs).map toString))
   | ["c13tver", rows, tables, ver, fromNs] => do
     let (v, _) ← ver? [rows, tables]
     some (toString (isVersionSupported v (← ofHex ver) (← fromNs.toInt?)))
